@@ -5,9 +5,10 @@ from harness.flatten import coq_list, coq_bool
 from harness.props._common import run_eval, replay_eval
 
 PROPS_FILE = "P_C06"
-COQ_TARGETS = ["CaseLib", "CvoModel"]
+COQ_TARGETS = ["CaseLib", "CvoModel", "CvoGates"]
 RULE = ("correspondence: the instruction list of CvoqramInitialize(...).definition (with/without auxiliaries, every mcg_method) is "
-        "compared inside Coq with CvoModel.cvo_gates for Hamming-sorted dictionaries, n = 2..6/9; contract: the 2x2 matrices of the "
+        "compared inside Coq with CvoModel.cvo_gates for Hamming-sorted dictionaries, n = 2..6/9, together with the executable order premise "
+        "ordered_b of C06_cvo_gates; contract: the 2x2 matrices of the "
         "emitted rotations satisfy the amplitude recurrence x_j = U_j[0,1] g_j, g_(j+1) = U_j[1,1] g_j, g_m = 0 that instantiates "
         "C06_cvo_step; direct evaluation (harness/props/c06_eval.py): full state incl. auxiliaries for merge, pivot and CVO-QRAM. "
         "distinct = distinct (dictionary, options); non-trivial = m >= 2")
@@ -15,7 +16,7 @@ ASSUMPTIONS = ["the multi-controlled U is C04's gate (Mcg / LdMcSpecialUnitary /
                "Toffolis cancelling pairwise): modelled as ideal, evaluated in the direct evaluation",
                "merge and pivot: evaluated only"]
 TRUSTED = ["top-level instruction list of the definition (no flattening needed)"]
-HEADER = ("From Coq Require Import List Bool Arith.\nFrom QV Require Import CvoModel CaseLib.\nImport ListNotations.\n"
+HEADER = ("From Coq Require Import List Bool Arith.\nFrom QV Require Import CvoModel CvoGates CaseLib.\nImport ListNotations.\n"
           "Definition cgate_eqb (g h : cgate) : bool := match g, h with\n"
           " | CX0 a, CX0 b => Nat.eqb a b | CCX a b, CCX c d => Nat.eqb a c && Nat.eqb b d\n"
           " | CRCCX a b c, CRCCX a' b' c' => Nat.eqb a a' && Nat.eqb b b' && Nat.eqb c c'\n"
@@ -84,8 +85,9 @@ def correspondence(ctx):
                         cases.append(case)
                         ctx.count(f"corr:cvoqram:aux={aux}:{method}", key=(tuple(d.items()), aux, method), nontrivial=m >= 2,
                                   sample=dict(case, gates=len(items)) if n == 3 and m == 3 else None)
-                        lines.append(f"(list_eqb cgate_eqb (cvo_gates {n} {coq_bool(aux)} "
-                                     f"{coq_list([coq_list([coq_bool(b) for b in p]) for p in pats])}) {coq_list(items)})")
+                        plist = coq_list([coq_list([coq_bool(b) for b in p]) for p in pats])
+                        premise = f" && ordered_b (map (ctl_of {n}) {plist})" if not aux else ""
+                        lines.append(f"(list_eqb cgate_eqb (cvo_gates {n} {coq_bool(aux)} {plist}) {coq_list(items)}{premise})")
                         # amplitude recurrence (premise/instantiation of C06_cvo_step)
                         gcur = 1.0 + 0j
                         ok = len(mats) == len(d) and all(x is not None for x in mats)
@@ -120,7 +122,11 @@ def replay(ctx, case):
 
 
 MANIFEST = dict(
-    text='Proof (PARTIAL): one CVO-QRAM iteration (flip-flop, multi-controlled U, flip-flop) on any number of qubits maps L + g*delta_flag to L + U01 g*delta_pattern + U11 g*delta_flag whenever the loaded part L vanishes on flag=1 and on states containing the control set (C06_cvo_step). Tie: the instruction list of CvoqramInitialize (aux/no aux, every backend) is compared inside Coq with CvoModel.cvo_gates; the emitted rotation matrices must satisfy the amplitude recurrence that instantiates the theorem. Merge, pivot and the full-state claims are evaluated.',
-    note='Modelled, not verified: the multi-controlled U (C04 / rccx ladder) as ideal; merge and pivot bookkeeping evaluated only.',
-    technique='Coq proof (explicit-state step lemma) + instruction-list correspondence (vm_compute) + amplitude-recurrence contract + state-vector evaluation',
-    design_ref='DESIGN.md section 4, C06')
+    text=("Proof: CVO-QRAM without auxiliary qubits END TO END on the model's gate list, for every n, every number of patterns and every family of rotation "
+          "matrices, modulo the multi-controlled U being ideal: from |0..0> the circuit yields sum_j x_j|pattern_j>|flag=0> + g_m|last pattern>|flag=1> with "
+          "x_j = U_j[0,1] g_j, g_(j+1) = U_j[1,1] g_j, under the executable order premise implied by the Hamming-weight order (C06_cvo_gates, C06_cvo_loop, C06_cvo_step). "
+          "Tie: the instruction list of CvoqramInitialize (aux/no aux, every backend) is compared inside Coq with CvoModel.cvo_gates together with the order premise; the emitted "
+          "rotation matrices must satisfy x_j = requested amplitude, g_m = 0. The auxiliary-qubit rccx ladder, merge and pivot and all full-state claims are evaluated."),
+    note="Modelled, not verified: the multi-controlled U (C04 gates / Qiskit control / rccx ladder) as ideal; merge and pivot bookkeeping evaluated only.",
+    technique="Coq proof (explicit-state loop invariant; flip-flop permutation semantics) + instruction-list correspondence and premise evaluation (vm_compute) + amplitude-recurrence contract + state-vector evaluation",
+    design_ref="DESIGN.md section 4, C06")
